@@ -2,7 +2,8 @@
 
 Case (JSON):
   {"variant": "tally" | "eb" | "eb_sub" | "eb_sub1" | "counter" | "eb_counter" | "eb_counter_sub",
-   "via":     "register" | "notify"          (event-based variants only: feed through notify(Event(DATA_EVENT, x)))
+   "via":     "register" | "notify" | "producer"   (event-based variants only: feed through notify(Event(DATA_EVENT, x)),
+                                                  or fired by an EventProducer the statistic listens to)
    "cls":     label of the data class the generator used (informative only)
    "ops": [["r", v]                     register one observation; v = int or float.hex() string
            ["blk", gen, n, seed, a, b]  n observations expanded deterministically (see _expand) from integer seed
@@ -202,7 +203,7 @@ def strategy(tier):
         variant = draw(st.sampled_from(["tally", "tally", "eb", "eb_sub", "eb_sub", "eb_sub", "eb_sub1",
                                         "tally", "eb_sub", "tally", "eb_sub1", "eb", "eb_sub", "tally",
                                         "counter", "eb_counter", "eb_counter_sub"]))
-        via = draw(st.sampled_from(["register", "register", "notify"]))
+        via = draw(st.sampled_from(["register", "register", "notify", "producer"]))
         if variant.startswith("counter") or variant.startswith("eb_counter"):
             val = st.one_of(st.just(1), st.integers(-5, 5), st.integers())
             ops = draw(st.lists(st.one_of(
@@ -651,8 +652,27 @@ def run_case(case):
         rec = Rec()
         stat.add_listener(StatEvents.N_EVENT, rec)
 
+    prod = None
+    if event_based and via == "producer":
+        from pydsol.core.pubsub import EventProducer
+        prod = EventProducer()
+
+        class OneShot(EventListener):
+            """another listener of the same data event that unsubscribes itself when it is notified"""
+
+            def notify(self, event):
+                prod.remove_listener(StatEvents.DATA_EVENT, self)
+
     def feed(x):
-        if event_based and via == "notify":
+        if prod is not None:
+            # the statistic listens to a producer (subscribed twice: the repeated subscription is ignored), behind a
+            # self-removing listener; the observation is fired by the producer
+            prod.remove_all_listeners()
+            prod.add_listener(StatEvents.DATA_EVENT, OneShot())
+            prod.add_listener(StatEvents.DATA_EVENT, stat)
+            prod.add_listener(StatEvents.DATA_EVENT, stat)
+            prod.fire(StatEvents.DATA_EVENT, x)
+        elif event_based and via == "notify":
             stat.notify(Event(StatEvents.DATA_EVENT, x))
         else:
             stat.register(x)
